@@ -388,10 +388,12 @@ fn packets_for(rng: &mut Rng, c: &SCloud) -> Vec<String> {
     let mut pk: Vec<String> = vec![];
     let nonpk = |rng: &mut Rng, pk: &mut Vec<String>| {
         while rng.chance(1, 4) {
+            // mostly small; sometimes the largest packet the 16-bit length field can express
+            let big = rng.chance(1, 12);
             if rng.chance(1, 2) {
-                pk.push(format!("I:{}", 16 + 4 * rng.below(12)));
+                pk.push(format!("I:{}", if big { 65536 } else { 16 + 4 * rng.below(12) }));
             } else {
-                pk.push(format!("X:{}", 4 + 4 * rng.below(10)));
+                pk.push(format!("X:{}", if big { *rng.pick(&[65536u64, 65532]) } else { 4 + 4 * rng.below(10) }));
             }
         }
     };
